@@ -71,6 +71,30 @@ fn chain_scenario(name: &str, n: usize, x: usize) -> Scenario {
 	s
 }
 
+/// Reference counting combined with index growth: C09's growth family on a counting column (a repeated set raises the
+/// count, a removal lowers it). Commits in order: the 65th key of a full page (growth), then two more keys of the same
+/// half (the page of the new index overflows when the old entries are moved: a second growth started by a migration
+/// batch), with all stage and reindex-batch interleavings. A key with a positive count must stay readable throughout.
+fn growth_scenario(name: &str, x: usize, max_r: usize) -> Scenario {
+	let mut s = crate::props::c09::scenario(name, 1, 2, x, None);
+	s.cfg.cols[0].ref_counted = true;
+	s.cfg.cols[0].preimage = true;
+	let a = s.alphabet.clone();
+	s.alphabet = vec![a[0].clone(), a[3].clone()];
+	s.stages = vec![St::P, St::F, St::E, St::R]; // log cleanup is left to the end of the execution (drop)
+	s.check_iter_rc = false; // value iteration at intermediate states: known finding F-C07-iter-lag, judged by the other scenarios
+	let a2 = s.alphabet.clone();
+	s.filter = Some(std::sync::Arc::new(move |hist: &[Ev], ev: &Ev| match ev {
+		Ev::Stage(St::R) => hist.iter().filter(|e| matches!(e, Ev::Stage(St::R))).count() < max_r,
+		Ev::Commit(tx) => {
+			let k = hist.iter().filter(|e| matches!(e, Ev::Commit(_))).count();
+			a2.get(k).map_or(false, |t| format!("{:?}", t) == format!("{:?}", tx))
+		},
+		_ => true,
+	}));
+	s
+}
+
 pub fn scenarios(tier: &str) -> Vec<Scenario> {
 	if tier == "thorough" {
 		vec![
@@ -79,6 +103,7 @@ pub fn scenarios(tier: &str) -> Vec<Scenario> {
 			scenario("rc-btree/n3-full", true, 2, 3, 1),
 			scenario("rc-hash/n2-x2", false, 2, 2, 2),
 			chain_scenario("rc-hash-collision-chain/n4", 4, 1),
+			growth_scenario("rc-hash/index-growth-twice/n2-in-order", 1, 6),
 		]
 	} else {
 		vec![
@@ -87,6 +112,7 @@ pub fn scenarios(tier: &str) -> Vec<Scenario> {
 			scenario("rc-btree/n3", true, 0, 3, 1),
 			scenario("rc-btree/n2-full", true, 2, 2, 1),
 			chain_scenario("rc-hash-collision-chain/n3", 3, 1),
+			growth_scenario("rc-hash/index-growth-twice/n2-in-order", 0, 3),
 		]
 	}
 }
